@@ -186,7 +186,8 @@ class Ctx:
         if nontrivial:
             before = len(self.nontrivial)
             self.nontrivial.add(h64(key if key is not None else self.current))
-            if len(self.nontrivial) != before and len(self.samples) < self.max_samples:
+            if len(self.nontrivial) != before and len(self.samples) < self.max_samples \
+                    and len(self.nontrivial) in (1, 25, 150):
                 self.samples.append(abbrev(sample if sample is not None
                                            else (key if key is not None else self.current)))
 
